@@ -60,12 +60,31 @@ Proof.
   subst q. exact Hq.
 Qed.
 
+(* regression for the repaired part of C13-literal-recleaned (fix 16f77b9): the pre-fix encoding stored the literal
+   " x" as "x"; with encode_cleaned_term the witness document loads as the Spec says *)
+Lemma reclean_regression :
+  lq_mem wc_missing (den_after_old (iA, iB, [32; 120])) = false /\
+  lq_mem (lq_of iA iB [120] None) (den_after_old (iA, iB, [32; 120])) = true /\
+  wf_doc_nt wc_doc = true /\ known_C13_reclean wc_doc = false /\
+  lq_mem wc_missing (den (load_nt (render_doc wc_doc) db_new)) = true.
+Proof. repeat split; vm_compute; reflexivity. Qed.
+
+(* the residue: a literal whose value looks like a quoted triple is still parsed as one *)
 Lemma reclean_refuted :
-  wf_doc_nt wc_doc = true /\ known_C13_reclean wc_doc = true /\
-  ~ (forall lq, In lq (den (load_nt (render_doc wc_doc) db_new)) <-> In lq (den db_new) \/ In lq (map lq_of4 (triples_of wc_doc))).
+  wf_doc_nt wr_doc = true /\ known_C13_reclean wr_doc = true /\
+  ~ (forall lq, In lq (den (load_nt (render_doc wr_doc) db_new)) <-> In lq (den db_new) \/ In lq (map lq_of4 (triples_of wr_doc))).
 Proof.
   split; [vm_compute; reflexivity|]. split; [vm_compute; reflexivity|].
-  apply (refute _ _ _ wc_missing); [vm_compute; reflexivity | vm_compute; left; reflexivity].
+  apply (refute _ _ _ wr_missing); [vm_compute; reflexivity | vm_compute; left; reflexivity].
+Qed.
+
+(* ... and a Turtle statement with a quoted triple still re-cleans its literal *)
+Lemma ttl_reclean_refuted :
+  known_C13_ttl_reclean wt_doc = true /\
+  ~ (forall lq, In lq (den (load_ttl (render_doc wt_doc) db_new)) <-> In lq (den db_new) \/ In lq (map lq_of4 (triples_of wt_doc))).
+Proof.
+  split; [vm_compute; reflexivity|].
+  apply (refute _ _ _ wt_missing); [vm_compute; reflexivity | vm_compute; left; reflexivity].
 Qed.
 
 Lemma n3_literal_refuted :
